@@ -563,6 +563,11 @@ def check(ctx, replay=None):
                 li, vk, what, ex_, ob = v
                 add(vk, dict(part="st", optset=k, optname=name, universe=U, script=s[:li], kind=kind), what, ex_, ob)
     # ---------------------------------------------------------------- other classes, pair mode against rebuilt objects
+    if rp and rp.get("part") == "sweep":
+        b = ctx.build_harness(rp["harness"], rp["tag"], SAN + list(rp["flags"]), timeout=3000)
+        (ans, death), = run_scripts(b, [rp["script"]])
+        if death and (death["san"] or death["sig"] == "CRASH"):
+            add("sweep:replay:sanitizer:%s" % (death["san"] or "crash"), rp, "replayed sanitizer report", "no report", death["err"][:700])
     is_probe = bool(rp) and rp.get("part") == "others" and rp["script"][0].endswith("#probe")
     for v in ([] if is_probe else ovars):
         rng = __import__("random").Random(ctx.seed * 104729 + crc(v["tag"]))
@@ -607,6 +612,9 @@ def check(ctx, replay=None):
                 "Matrix<%s>: insert_boundary on a moved-from matrix (null column settings)" % v["tag"], "the moved-from matrix is empty and usable again",
                 (death["san"] or death["sig"] or "died") if death else a4[:200])
         break
+    # ---------------------------------------------------------------- thorough: the other harnesses of the suite under the sanitizers
+    if thorough and not rp and not only:
+        sweep_suite(ctx, res, add)
     # ---------------------------------------------------------------- threads
     if do_tsan:
         for rep in range(3 if thorough else 1):
@@ -635,6 +643,74 @@ def check(ctx, replay=None):
     return core.finish(ctx, None, res, TRUSTED, ASSUMPTIONS, LEVEL,
                        "cd /verif/coq && make -f Makefile.coq Properties_C15.vo  (coqc 8.16.1; Print Assumptions after every theorem)",
                        correspondence_name=CORRESPONDENCE)
+
+
+def sweep_suite(ctx, res, add):
+    """'... and in every other check of this suite, no operation touches memory outside live objects or executes undefined
+    behaviour': the harnesses of other properties are rebuilt with ASan+UBSan and fed inputs from THEIR generators; only a
+    sanitizer report / crash counts here (their answers are judged by their own checks).  Any incompatibility with another
+    plugin's generator API is noted, never an alarm."""
+    import importlib, random
+    plan = []
+
+    def c01():
+        m = importlib.import_module("props.c01")
+        hs = m.generate(random.Random(ctx.seed + 11), 250)
+        return [("c01_drv.cpp", "sweep_c01_o%d" % k, ["-DOPTSET=%d" % k], [[m.header(h["U"])] + list(h["ops"]) for h in hs if k in h["opts"]]) for k in (0, 1, 4, 6)]
+
+    def c16():
+        m = importlib.import_module("props.c16")
+        cs = [c for c in m.generate(random.Random(ctx.seed + 12), "quick") if c[2] != "exhaustive"][:400]
+        return [("c16_drv.cpp", "sweep_c16", [], [["G " + " ".join(map(str, U))] + list(ops) for (U, ops, _) in cs])]
+
+    def c13():
+        m = importlib.import_module("props.c13")
+
+        class Fake:
+            rng = random.Random(ctx.seed + 13)
+            tier = "quick"
+        cs = m.generate(Fake)
+        cs = cs[::max(1, len(cs) // 250)]
+        return [("c13_drv.cpp", "sweep_c13", [], [[c.header()] + list(c.ops) for c in cs])]
+
+    def c10():
+        m = importlib.import_module("props.c10")
+        g = m.generate(random.Random(ctx.seed + 14), "quick")
+        return [("c10_drv.cpp", "sweep_c10", [], [[h] + list(ops[:1500]) for (h, ops) in g.groups])]
+
+    def c20():
+        m = importlib.import_module("props.c20")
+        g = m.generate(random.Random(ctx.seed + 15), "quick")
+        return [("c20_drv.cpp", "sweep_c20", [], [[h] + list(ops[:400]) for (h, ops) in g.groups])]
+
+    for name, fn in (("C01", c01), ("C16", c16), ("C13", c13), ("C10", c10), ("C20", c20)):
+        try:
+            for (src, tag, fl, scripts) in fn():
+                scripts = [sc for sc in scripts if len(sc) > 1]
+                if scripts:
+                    plan.append((name, src, tag, fl, scripts))
+        except Exception as ex:                                   # noqa: another plugin changed its generator
+            res.notes.append("sanitizer sweep of %s skipped (generator API: %s: %s)" % (name, type(ex).__name__, str(ex)[:120]))
+    def build(pl):
+        try:
+            return ctx.build_harness(pl[1], pl[2], SAN + pl[3], timeout=3000)
+        except core.CheckError as ex:
+            res.notes.append("sanitizer sweep of %s skipped (build: %s)" % (pl[0], str(ex)[-300:]))
+            return None
+    built = core.parallel_map(build, plan, workers=WORKERS)
+    for (name, src, tag, fl, scripts), b in zip(plan, built):
+        if b is None:
+            continue
+        got = run_scripts(b, scripts, chunk=25)
+        n = 0
+        for sc, (ans, death) in zip(scripts, got):
+            n += len(ans)
+            if death and (death["san"] or death["sig"] == "CRASH"):
+                i = min(death["line"], len(sc) - 1)
+                add("sweep:%s:sanitizer:%s" % (name, death["san"] or "crash"), dict(part="sweep", harness=src, tag=tag, flags=fl, script=sc[:i + 1]),
+                    "harness of %s rebuilt with ASan+UBSan: '%s' ended the process" % (name, sc[i][:120]), "no report", death["err"][:700])
+        res.count("sanitizer sweep of other harnesses:%s (%s)" % (name, tag), n)
+        res.evaluations += n
 
 
 def shrink_st(binary, orc, case, kind_, what, ex_, ob, fxs, budget=60):
